@@ -72,8 +72,8 @@ def equality_program(r):
     lines += ["(define a %s)" % a, "(define b %s)" % b, "(define c %s)" % c,
               "(verif-emit (list (equal? a b) (equal? b a) (equal? a a) (equal? b c) (equal? a c)))",
               "(verif-emit (list (if (member a (list c b)) #t #f) (if (member b (list 0 a)) #t #f)))"]
-    if "hashset" not in a + b and "(hash " not in a + b and "vector" not in a + b and "1.5" not in a + b and "0.0" not in a + b and "void" not in a + b and "vf-pt" not in a + b:
-        # immutable, hashable keys only
+    if "void" not in a + b:
+        # every value kind as a key: mutable and immutable vectors, byte vectors, hash maps, hash sets, structs, inexact numbers
         lines.append("(verif-emit (list (hash-contains? (hash a 1) b) (hashset-contains? (hashset a) b) (hash-try-get (hash a 'v) b)))")
     return "\n".join(lines)
 
@@ -206,6 +206,13 @@ def seq_program(r):
                 em("(bytes->list b)")
             elif k == 5:
                 em("(bytes-append b (bytes 9) b)")
+                # the result of an append / copy is a fresh byte vector: mutating it must not show through the operand
+                form = r.choice(["(bytes-append (bytes) b)", "(bytes-append b)", "(bytes-append b (bytes))", "(bytes-copy b)", "(bytes-append (bytes) b (bytes))"])
+                fr = "fresh%d" % len(lines)      # (a second define of one name in a unit is rejected at compile time)
+                lines.append("(define %s %s)" % (fr, form))
+                lines.append("(with-handler (lambda (e) (verif-emit 'err)) (bytes-set! %s 0 %d))" % (fr, r.randint(0, 255)))
+                lines.append("(with-handler (lambda (e) (verif-emit 'err)) (bytes-push! %s 7))" % fr)
+                em("(list b %s)" % fr)
             elif k == 6:
                 a1, a2 = r.randint(0, 4), r.randint(0, 7)
                 em("(with-handler (lambda (e) 'err) (bytes-copy b%s))" % r.choice(["", " %d" % a1, " %d %d" % (a1, a2)]))
@@ -214,15 +221,25 @@ def seq_program(r):
             else:
                 em("b")
     else:
-        lines.append("(define s \"%s\")" % r.choice(["", "a", "hello", "xyz"]))
+        lines.append("(define s \"%s\")" % r.choice(["", "a", "hello", "xyz", "\u00e9 hello world", "\u03bbx\u2192y z", "ab\u65e5\u672c\u8a9ecd", "na\u00efve caf\u00e9"]))
         for _ in range(n):
-            k = r.randrange(5)
+            k = r.randrange(8)
+            if k == 5:
+                a, b = sorted((r.randint(0, 6), r.randint(0, 12)))
+                em("(with-handler (lambda (e) 'err) (string->list (substring s %d %d)))" % (a, b))
+                continue
+            if k == 6:
+                em("(with-handler (lambda (e) 'err) (map char->integer (string->list s)))")
+                continue
+            if k == 7:
+                em("(list (string<? s \"hello\") (string=? (substring s 0 (string-length s)) s) (equal? (string-append s \"\") s))")
+                continue
             if k == 0:
                 lines.append("(set! s (string-append s \"%s\"))" % r.choice(["", "b", "cd"]))
             elif k == 1:
                 em("(string-length s)")
             elif k == 2:
-                a, b = sorted((r.randint(0, 4), r.randint(0, 8)))
+                a, b = sorted((r.randint(0, 6), r.randint(0, 12)))
                 em("(with-handler (lambda (e) 'err) (substring s %d %d))" % (a, b))
             elif k == 3:
                 em("(string=? s \"hello\")")
@@ -232,6 +249,7 @@ def seq_program(r):
 
 
 def main(tier):
+    R.ALLOW_MUTABLE_VECTOR_KEYS = True
     rep = core.Reporter("C11", tier)
     npairs, nseq, ndag = (2500, 800, 20) if tier == "quick" else (200000, 60000, 300)
     r = core.rng("C11")
